@@ -236,6 +236,30 @@ class PoolFacts:
                 if d and len(d) == 2 and d[1] in self.alias:
                     self.results_lock = self.alias[d[1]]
         if None in (self.work_q, self.results_q, self.results_lock, self.replace_q):
+            # the round may be spread over private helpers the view could not inline (a work loop that returns a flag ...): the
+            # roles are what the worker class does with each queue, wherever it does it
+            for k in self.worker.repo_mro():
+                if k.is_external:
+                    continue
+                for g in k.methods.values():
+                    if g.self_name is None:
+                        continue
+                    for c in calls_in(g.node):
+                        qc = queue_call(c)
+                        d = dotted(c.func.value) if isinstance(c.func, ast.Attribute) else None
+                        if qc and d and len(d) == 2 and d[0] == g.self_name and d[1] in self.alias:
+                            if qc[0] == "get" and self.work_q is None:
+                                self.work_q = self.alias[d[1]]
+                            elif qc[0] == "put" and c.args and dotted(c.args[0]) == (g.self_name, "wid"):
+                                self.replace_q = self.replace_q or self.alias[d[1]]
+                            elif qc[0] == "put" and self.results_q is None and not (c.args and dotted(c.args[0]) == (g.self_name, "wid")):
+                                self.results_q = self.alias[d[1]]
+                    for n in walk_own(g.node):
+                        if isinstance(n, ast.With) and self.results_lock is None:
+                            d = dotted(n.items[0].context_expr)
+                            if d and len(d) == 2 and d[0] == g.self_name and d[1] in self.alias:
+                                self.results_lock = self.alias[d[1]]
+        if None in (self.work_q, self.results_q, self.results_lock, self.replace_q):
             raise AnalysisError(f"queue roles not discoverable from the worker's run(): work={self.work_q} "
                                 f"results={self.results_q} lock={self.results_lock} replace={self.replace_q}")
         self.get_results = None
